@@ -4,6 +4,7 @@ TLC enumerates (type, value) and (type, foreign input) vectors with their expect
 records random deeper executions and has TLC judge them (channel V, spec/trace/CoreTrace.tla)."""
 from __future__ import annotations
 
+import hashlib
 import json
 import multiprocessing as mp
 import os
@@ -28,6 +29,13 @@ def cfg_text(module_cfg: str, **consts) -> str:
         if n != 1:
             raise tlc.MachineryError(f"constant {k} not found in {module_cfg}")
     return s
+
+
+def norm_err(r):
+    """error terms carry key SETS (ExtraKeysError): order them canonically"""
+    if isinstance(r, list) and len(r) == 2 and r[0] == "err" and isinstance(r[1], list) and r[1] and r[1][0] == "Extra":
+        return ["err", ["Extra", sorted(r[1][1], key=jkey), r[1][2]]]
+    return r
 
 
 def listify(w):
@@ -75,10 +83,18 @@ def _replay_group(args):
         for rec in recs:
             out["n"] += 1
             if rec[0] == "vec":
-                _, _T, v, wire_exp, back_exp = rec
+                _, _T, v, wire_exp, back_exp = rec[:5]
+                kw = {}
+                if len(rec) > 5:
+                    for o in rec[5]:
+                        if o[0] == "dialect":
+                            from harness.classes import build_dialect
+                            kw["dialect"] = subj.dialect_for(o[1])
+                        else:
+                            kw[o[0]] = o[1]
                 try:
                     x = __import__("harness.terms", fromlist=["x"]).concretize_value(v, subj.reg)
-                    w_py = subj.encode_py(x)
+                    w_py = subj.encode_py(x, **kw)
                 except Exception as e:  # noqa: BLE001
                     out["mism"].append({"clause": "encode-raises", "T": T, "input": v,
                                         "expected": wire_exp, "actual": ["exc", type(e).__name__, str(e)[:200]]})
@@ -86,13 +102,17 @@ def _replay_group(args):
                 from harness.terms import abstract_value
                 w_act = abstract_value(w_py, subj.reg)
                 if not wire_match(canon(wire_exp), w_act):
-                    out["mism"].append({"clause": "wire", "T": T, "input": v, "expected": wire_exp, "actual": w_act})
+                    out["mism"].append({"clause": "wire", "T": T, "input": v, "expected": wire_exp, "actual": w_act,
+                                        "call": rec[5] if len(rec) > 5 else []})
                 if not has_any:
                     try:
                         _json.dumps(w_py)
                     except Exception as e:  # noqa: BLE001
                         out["mism"].append({"clause": "json-dumps", "T": T, "input": v, "expected": "json.dumps accepts",
                                             "actual": ["exc", type(e).__name__, str(e)[:200]]})
+                if kw:
+                    out["nontrivial"].append(hashlib.sha1(jkey([T, v, rec[5]]).encode()).hexdigest())
+                    continue            # option-projected output is not meant to be read back
                 # real round trip on the real wire object
                 try:
                     y = subj.decode_py(w_py)
@@ -106,10 +126,12 @@ def _replay_group(args):
                 elif back_act[0] == "ok" and back_exp[0] == "ok" and not terms_equal(back_act[1], back_exp[1]):
                     out["mism"].append({"clause": "decode", "T": T, "input": listify(wire_exp), "expected": back_exp, "actual": back_act})
                 if len(_json.dumps(v)) > 12:
-                    out["nontrivial"].append(jkey([T, v])[:400])
+                    out["nontrivial"].append(hashlib.sha1(jkey([T, v]).encode()).hexdigest())
             else:
-                _, _T, j, dec_exp = rec
+                _, _T, j, dec_exp = rec[:4]
+                dec_exp = norm_err(dec_exp)
                 res, unchanged = subj.decode(j)
+                res = norm_err(res)
                 if not unchanged:
                     out["mism"].append({"clause": "input-mutated", "T": T, "input": j, "expected": "input unchanged", "actual": res})
                 if dec_exp[0] == "unknown":
@@ -127,7 +149,19 @@ def _replay_group(args):
                         out["mism"].append({"clause": "error-kind", "T": T, "input": j, "expected": dec_exp, "actual": res})
                     elif subj.mixin and isinstance(dec_exp[1], list) and not terms_equal(res[1], dec_exp[1]):
                         out["mism"].append({"clause": "error-detail", "T": T, "input": j, "expected": dec_exp, "actual": res})
-                out["nontrivial"].append(jkey([T, j])[:400])
+                out["nontrivial"].append(hashlib.sha1(jkey([T, j]).encode()).hexdigest())
+                fresh = rec[4] if len(rec) > 4 else []
+                if fresh and res[0] == "ok":
+                    import dataclasses as _dc
+                    from harness.terms import concretize_value as _cv
+                    o1 = subj.decode_py(_cv(j, subj.reg))
+                    o2 = subj.decode_py(_cv(j, subj.reg))
+                    names = [f.name for f in _dc.fields(subj.ann)]
+                    for i in fresh:
+                        a, b = getattr(o1, names[i - 1]), getattr(o2, names[i - 1])
+                        if a is b:
+                            out["mism"].append({"clause": "shared-factory", "T": T, "input": j, "expected": "fresh factory result per instance",
+                                                "actual": ["shared", names[i - 1]]})
     finally:
         subj.close()
     return out
@@ -150,3 +184,28 @@ def replay(printed, procs=16):
             agg["unknown"] += out["unknown"]
             agg["nontrivial"].update(out["nontrivial"])
     return agg
+
+
+def run_mc(module, wd, cfg=None, rep=None, label="", workers=16, timeout=1800, env=None):
+    """two-phase run of an MC module: first pass collects the inputs that reach leaf constructors,
+    the stdlib Ctor table is built for them, second pass is the real one"""
+    r1 = tlc.run_tlc(module, workdir=wd, workers=workers, timeout=timeout, cfg_text=cfg, env=env)
+    tab = CtorTable()
+    for rec in r1.printed:
+        if rec[0] == "vec":
+            tab.add_pair(rec[1], listify(rec[3]))
+        elif rec[0] == "inp":
+            tab.add_pair(rec[1], rec[2])
+    if not tab.rows:
+        if rep is not None:
+            rep.add_tlc(r1, label)
+        return r1
+    path = os.path.join(wd, f"ctor_{module}.json")
+    with open(path, "w") as fh:
+        json.dump(tab.dump(), fh)
+    e = dict(env or {})
+    e["CTOR_FILE"] = path
+    r2 = tlc.run_tlc(module, workdir=wd, workers=workers, timeout=timeout, cfg_text=cfg, env=e)
+    if rep is not None:
+        rep.add_tlc(r2, label)
+    return r2
